@@ -588,7 +588,8 @@ theorem C15_check_sound (x : Hop) (h : hopCheck x = none) : HopOk x := by
   · simp only [ha, if_true]
     simp only [hopClauses, ha, if_true] at hall
     have h1 := hall (_, _) (List.mem_cons_self ..)
-    have h3 := hall (_, _) (List.mem_cons_of_mem _ (List.mem_cons_of_mem _ (List.mem_cons_self ..)))
+    have h3 := hall (_, _) (List.mem_cons_of_mem _ (List.mem_cons_of_mem _ (List.mem_cons_of_mem _ (List.mem_cons_of_mem _
+      (List.mem_cons_self ..)))))
     exact ⟨by simpa using h1, by simpa using h3⟩
   · simp only [ha]
     simp only [hopClauses, ha] at hall
